@@ -1,9 +1,11 @@
 package checks
 
 import (
+	"crypto/elliptic"
 	"crypto/rand"
 	"fmt"
 	"math/big"
+	"sync"
 
 	"github.com/bnb-chain/tss-lib/v2/common"
 	"github.com/bnb-chain/tss-lib/v2/crypto"
@@ -175,7 +177,9 @@ func c11Run(c core.Case, env *core.Env) core.Result {
 			return r
 		}
 		N := pp.NTildei
-		control("dln", func() bool { return dlnproof.NewDLNProof(pp.H1i, pp.H2i, pp.Alpha, pp.P, pp.Q, N, rand.Reader).Verify(pp.H1i, pp.H2i, N) })
+		control("dln", func() bool {
+			return dlnproof.NewDLNProof(pp.H1i, pp.H2i, pp.Alpha, pp.P, pp.Q, N, rand.Reader).Verify(pp.H1i, pp.H2i, N)
+		})
 		neg := new(big.Int).Sub(N, pp.H2i) // -h1^alpha: Jacobi +1 but not a square, hence outside <h1>
 		rejected("dln: h2 = -h1^alpha, prover uses alpha", func() bool {
 			return dlnproof.NewDLNProof(pp.H1i, neg, pp.Alpha, pp.P, pp.Q, N, rand.Reader).Verify(pp.H1i, neg, N)
@@ -234,7 +238,10 @@ func c11Run(c core.Case, env *core.Env) core.Result {
 		// control: a vendored key
 		fx, err := Fixtures(env.Repo)
 		if err == nil {
-			control("paillier-key", func() bool { ok, e := fx[0].PaillierSK.Proof(k, pub).Verify(fx[0].PaillierSK.N, k, pub); return ok && e == nil })
+			control("paillier-key", func() bool {
+				ok, e := fx[0].PaillierSK.Proof(k, pub).Verify(fx[0].PaillierSK.N, k, pub)
+				return ok && e == nil
+			})
 		}
 	case "paillier-gcd":
 		bits := c.P.Int("bits")
@@ -452,7 +459,10 @@ func c11Mod(r *core.Result, fam string, bits int, sess []byte, rejected func(str
 	fx, err := Fixtures(env.Repo)
 	if err == nil {
 		sk := fx[2].PaillierSK
-		control("mod", func() bool { pf, e := modproof.NewProof(sess, sk.N, sk.P, sk.Q, rand.Reader); return e == nil && pf.Verify(sess, sk.N) })
+		control("mod", func() bool {
+			pf, e := modproof.NewProof(sess, sk.N, sk.P, sk.Q, rand.Reader)
+			return e == nil && pf.Verify(sess, sk.N)
+		})
 		// the transcript builder itself must be good enough to convince the verifier on a true statement
 		control("mod (transcript builder on a Blum modulus)", func() bool {
 			P, Q := primeMod4(256, 3), primeMod4(256, 3)
@@ -726,8 +736,33 @@ func c13Gen(tier string, seed int64) []core.Case {
 		id := fmt.Sprintf("alter/alice%d-bob%d", pr[0], pr[1])
 		cs = append(cs, core.Case{ID: id, Class: id, Kind: "alter", Cost: 6, P: core.P{"i": pr[0], "j": pr[1]}})
 	}
+	// the exchange takes the curve as an argument: q is that curve's order, whatever the process default is
+	for ci, curve := range []string{"ed25519", "p256"} {
+		prs := pairList(tier)
+		for k, pr := range prs {
+			if tier != "thorough" && k != ci%len(prs) {
+				continue
+			}
+			for _, wc := range []bool{false, true} {
+				for _, av := range vals {
+					for _, bv := range vals {
+						if (wc && bv == "0") || (tier != "thorough" && av != bv && av != "seeded" && bv != "seeded") {
+							continue
+						}
+						id := fmt.Sprintf("mta/%s/wc=%v/alice%d-bob%d/a=%s,b=%s", curve, wc, pr[0], pr[1], av, bv)
+						cs = append(cs, core.Case{ID: id, Class: id, Kind: "mta", Cost: 1.5,
+							P: core.P{"i": pr[0], "j": pr[1], "wc": wc, "a": av, "b": bv, "curve": curve}})
+					}
+				}
+			}
+			id := fmt.Sprintf("alter/%s/alice%d-bob%d", curve, pr[0], pr[1])
+			cs = append(cs, core.Case{ID: id, Class: id, Kind: "alter", Cost: 6, P: core.P{"i": pr[0], "j": pr[1], "curve": curve}})
+		}
+	}
 	return cs
 }
+
+var regP256 sync.Once
 
 func c13Run(c core.Case, env *core.Env) core.Result {
 	r := res(c)
@@ -736,8 +771,16 @@ func c13Run(c core.Case, env *core.Env) core.Result {
 		r.Inconcl("fixtures: %v", err)
 		return r
 	}
-	ec := tss.S256()
-	q := secQ
+	var ec elliptic.Curve = tss.S256()
+	switch c.P.Str("curve") {
+	case "ed25519":
+		ec = tss.Edwards()
+	case "p256":
+		// a curve other than the two built-in ones has to be registered before use (tss.SameCurve consults the registry)
+		ec = elliptic.P256()
+		regP256.Do(func() { tss.RegisterCurve("P-256", ec) })
+	}
+	q := ec.Params().N
 	A, B := fx[c.P.Int("i")], fx[c.P.Int("j")]
 	skA, pkA := A.PaillierSK, &A.PaillierSK.PublicKey
 	rg := rng(env.Seed, c.ID)
@@ -828,6 +871,15 @@ func c13Run(c core.Case, env *core.Env) core.Result {
 			"*(1+N) (adds 1)":  func(v *big.Int) *big.Int { return new(big.Int).Mod(new(big.Int).Mul(v, pkA.Gamma()), N2) },
 			"random":           func(v *big.Int) *big.Int { return randBig(rg, N2) },
 			"other ciphertext": func(v *big.Int) *big.Int { return other },
+			// non-units of Z_{N^2}: the receiver must refuse them like any other altered value
+			"N":                 func(v *big.Int) *big.Int { return new(big.Int).Set(pkA.N) },
+			"2N":                func(v *big.Int) *big.Int { return new(big.Int).Lsh(pkA.N, 1) },
+			"*N mod N^2":        func(v *big.Int) *big.Int { return new(big.Int).Mod(new(big.Int).Mul(v, pkA.N), N2) },
+			"a factor of N":     func(v *big.Int) *big.Int { return new(big.Int).Set(skA.P) },
+			"*q' (factor of N)": func(v *big.Int) *big.Int { return new(big.Int).Mod(new(big.Int).Mul(v, skA.Q), N2) },
+			"0":                 func(v *big.Int) *big.Int { return new(big.Int) },
+			"N^2":               func(v *big.Int) *big.Int { return new(big.Int).Set(N2) },
+			"-v":                func(v *big.Int) *big.Int { return new(big.Int).Neg(v) },
 		}
 		for _, wc := range []bool{false, true} {
 			var Bp *crypto.ECPoint
